@@ -14,6 +14,7 @@ from timeit import default_timer as timer
 from typing import TYPE_CHECKING
 
 import dask.array as da
+from dask.delayed import delayed
 import numpy as np
 import pandas as pd
 import xarray as xr
@@ -31,6 +32,19 @@ if TYPE_CHECKING:
     from pyxel.exposure import Readout
 
 
+def _to_array_3d(data: xr.DataArray, shape: tuple[int, int, int]) -> np.ndarray:
+    """Convert a bucket from a result data tree into a 3D numpy array.
+
+    A bucket that was never initialized by a model has no dimension 'y' and 'x',
+    in this case an array filled with NaN is returned.
+    """
+    array = np.asarray(data, dtype=float)
+    if array.shape != shape:
+        return np.full(shape, fill_value=np.nan)
+
+    return array
+
+
 def extract_data_3d(
     df_results: pd.DataFrame,
     rows: int,
@@ -45,11 +59,27 @@ def extract_data_3d(
         id_processor: int = row["id_processor"]
         data_tree: Delayed = row["data_tree"]
 
-        photon_delayed: Delayed = data_tree["photon"]  # type: ignore
-        charge_delayed: Delayed = data_tree["charge"]  # type: ignore
-        pixel_delayed: Delayed = data_tree["pixel"]  # type: ignore
-        signal_delayed: Delayed = data_tree["signal"]  # type: ignore
-        image_delayed: Delayed = data_tree["image"]  # type: ignore
+        # The data tree is generated with parameter 'with_inherited_coords=True'
+        # (see 'ModelFittingDataTree._apply_parameters'), the buckets are in '/bucket'
+        bucket_delayed: Delayed = data_tree["bucket"]  # type: ignore
+
+        shape_3d: tuple[int, int, int] = (times, rows, cols)
+
+        photon_delayed: Delayed = delayed(_to_array_3d)(
+            bucket_delayed["photon"], shape_3d
+        )
+        charge_delayed: Delayed = delayed(_to_array_3d)(
+            bucket_delayed["charge"], shape_3d
+        )
+        pixel_delayed: Delayed = delayed(_to_array_3d)(
+            bucket_delayed["pixel"], shape_3d
+        )
+        signal_delayed: Delayed = delayed(_to_array_3d)(
+            bucket_delayed["signal"], shape_3d
+        )
+        image_delayed: Delayed = delayed(_to_array_3d)(
+            bucket_delayed["image"], shape_3d
+        )
 
         photon_3d = da.from_delayed(
             photon_delayed, shape=(times, rows, cols), dtype=float
